@@ -52,18 +52,12 @@ def natural_matrix(ctx):
     return runs
 
 
-def run(ctx):
-    rnd = random.Random(ctx.seed)
-    ctx.cov["bounds"] = {}
+def operator_level(ctx, rnd):
     inv_ops = oc.INV_C06_OPS + ["RefreshEqualsRebuild"]
     # ---- 1. operator level
-    jobs = oc.ops_level(ctx, "C06", inv_ops, rnd, nsample=200 if ctx.quick else 4000)
-    nops = len(jobs)
-    nat = natural_matrix(ctx)
-    jobs += [("call", dict(module="harness.opscache", func="natural_run", args=a)) for a in nat]
-    results = rf.replay_all(ctx, jobs)
-    ops_traces = [t for r in results[:nops] for t in r]
-    nat, nat_traces = oc.split_aborted(ctx, nat, results[nops:])
+    jobs = oc.ops_level(ctx, "C06", inv_ops, rnd, nsample=160 if ctx.quick else 8000, short=3,
+                        mutants=[m for m in oc.OPS_MUTANTS if m[0] in ("MMask", "MFixPsi")] if ctx.quick else None)
+    ops_traces = [t for r in rf.replay_all(ctx, jobs) for t in r]
     good = oc.judge_ops_traces(ctx, "C06", ops_traces, inv_ops)
     pinned_ok = [n for n in good if ops_traces[n]["mode"] == "terminals" and len(ops_traces[n]["ev"]) >= 3]
     for n in pinned_ok[:1]:
@@ -83,6 +77,11 @@ def run(ctx):
     elif not ctx.violations:
         raise core.MachineryFailure("C06: no operator replay with pinned rows was accepted")
 
+
+def solver_level(ctx):
+    nat = natural_matrix(ctx)
+    results = rf.replay_all(ctx, [("call", dict(module="harness.opscache", func="natural_run", args=a)) for a in nat])
+    nat, nat_traces = oc.split_aborted(ctx, nat, results)
     # ---- 2. solver level: which pin mechanism does the code implement?  (TLC decides)
     if not any(t["v"] == "nonzero" for t in nat_traces):
         raise core.MachineryFailure("C06: no natural run with a nonzero terminal value")
@@ -92,7 +91,7 @@ def run(ctx):
     reimpose = full[0] if full else True
     mech = dict(oc.REPAIRED, MReimpose=reimpose)
     ctx.cov["mechanism_identified_by_trace_validation"] = {"MReimpose": reimpose if full else None}
-    sb = dict(oc.STEP_DEFAULT) if ctx.quick else dict(oc.STEP_DEFAULT, MaxSteps=4, MaxIter=2, AMax=4)
+    sb = dict(oc.STEP_DEFAULT) if ctx.quick else dict(oc.STEP_DEFAULT, MaxSteps=5, MaxIter=2, AMax=4, IMax=4)
     ctx.cov["bounds"]["OpsCache/SpecStep"] = sb
     small = dict(oc.STEP_DEFAULT, Dyns=[False], MaxSteps=2)
     thunks = [lambda: oc.model_check(ctx, sb, mech, oc.INV_C06_STEP, "SpecStep", "ViewStep",
@@ -109,12 +108,16 @@ def run(ctx):
                                                               ["UnsetMeansFree"], "SpecStep", view="ViewStep"),
                                       name="OpsCache/SpecStep[fix_psi ignored must violate UnsetMeansFree]",
                                       expect_violation="UnsetMeansFree", count=False)]
+    out = {}
+
+    def judge():       # every recorded run, every state (every step, every saved frame): the clauses themselves
+        out["v"] = oc.validate(ctx, nat_traces, mech, oc.INV_C06_STEP, "C06 natural runs")
+    thunks.append(judge)
     if not reimpose:
         thunks.append(lambda: ctx.model_check("OpsCache", oc.cfg_text(small, oc.REPAIRED, oc.INV_C06_STEP, "SpecStep", view="ViewStep"),
                                               name="OpsCache/SpecStep[value re-imposed (candidate repair)]", count=False))
     oc.in_parallel(thunks)
-    # every recorded run, every state (every step, every saved frame): the clauses themselves
-    acc, bad, _ = oc.validate(ctx, nat_traces, mech, oc.INV_C06_STEP, "C06 natural runs")
+    acc, bad, _ = out["v"]
     for n, (a, tr) in enumerate(zip(nat, nat_traces)):
         ctx.note_case(("C06", "natural", a["label"]), tr["mode"] != "none")
         info = tr["info"]
@@ -158,6 +161,13 @@ def run(ctx):
                                           "C06/natural non-terminal sites frozen")])
     elif not ctx.violations:
         raise core.MachineryFailure("C06: no accepted natural run with pinned / with free terminals")
+
+
+def run(ctx):
+    rnd = random.Random(ctx.seed)
+    ctx.cov["bounds"] = {}
+    # the operator level and the solver level are independent: side by side
+    oc.in_parallel([lambda: operator_level(ctx, rnd), lambda: solver_level(ctx)])
     ctx.cov["rule"] = ("operator level: as C10 (sequences of link configurations per instance x pinned set replayed on the real "
                        "MeshOperators; identity-row flags of terminal rows and of all other rows after every call).  solver level: "
                        "natural runs per (device, terminal_psi, drive, screening); after every Euler step and update and in every "
